@@ -243,14 +243,6 @@ func repairEncSpec1(s *gen.TypeSpec) {
 	}
 	s.Walk(func(n *gen.TypeSpec) {
 		if rt.Active(EncDirectAggregate) {
-			if n.K == "array" && n.N == 1 && direct(n.Elem) {
-				n.N = 2
-				rt.Excluded(EncDirectAggregate)
-			}
-			if n.K == "struct" && badDirect(n) {
-				n.Fields = append(n.Fields, gen.FieldSpec{Name: "Pad9", T: &gen.TypeSpec{K: "int8"}})
-				rt.Excluded(EncDirectAggregate)
-			}
 			for ptrPtrBad(n) {
 				*n = *n.Elem
 				rt.Excluded(EncDirectAggregate)
